@@ -59,11 +59,15 @@ DELIVERABLES, all inside /tmp/seed{N}-{P}/_seed/ :
 Final answer: a short summary (the diff, what it needs to manifest, test results, demo results both ways).
 '''
 words = {1: 'One', 2: 'Two', 3: 'Three', 4: 'Four', 5: 'Five', 6: 'Six', 7: 'Seven', 8: 'Eight', 9: 'Nine'}
+only = sys.argv[3].split(',') if len(sys.argv) > 3 else None
 for pid, p in props.items():
+    if only and pid not in only:
+        continue
     wt = '/tmp/seed%s-%s' % (N, pid)
     subprocess.run(['git', '-C', '/repo', 'worktree', 'add', '--detach', wt, 'HEAD'], check=True, capture_output=True)
     os.makedirs(wt + '/_seed', exist_ok=True)
-    ms = [json.load(open('/verif/seeded/%s-%s/meta.json' % (pid, r))) for r in earlier]
+    import glob
+    ms = [json.load(open(f)) for r in earlier for f in sorted(glob.glob('/verif/seeded/%s-%s*/meta.json' % (pid, r)))]
     q = p['quantifier']
     txt = 'PROPERTY %s: %s\n\nStatement:\n%s\n\nQuantifies over (%s):\n%s\n\nWhy the existing tests cannot settle it:\n%s\n\nAnchored in:\n' % (
         pid, p['title'], p['statement'], ', '.join(q['over']), q['text'], p['why_tests_cant'])
